@@ -3,7 +3,7 @@ use laythe_core::{
   hooks::{GcHooks, Hooks},
   managed::Trace,
   module::Module,
-  object::{LyNative, LyStr, Native, NativeMetaBuilder},
+  object::{LyNative, LyStr, Native, NativeMetaBuilder, ObjectKind},
   signature::{Arity, ParameterBuilder, ParameterKind},
   value::{Value, VALUE_NIL},
   Call, LyError, ObjRef, Ref,
@@ -46,19 +46,23 @@ impl Print {
 
 impl LyNative for Print {
   fn call(&self, hooks: &mut Hooks, args: &[Value]) -> Call {
-    let str_method = hooks.get_method(args[0], self.method_str)?;
-    let mut output = String::from(
-      &*hooks
-        .call_method(args[0], str_method, &[])?
-        .to_obj()
-        .to_str(),
-    );
+    let mut output = String::new();
 
-    for s in args.iter().skip(1) {
+    // print takes any number of values, none included
+    for (index, s) in args.iter().enumerate() {
       let str_method = hooks.get_method(*s, self.method_str)?;
+      let result = hooks.call_method(*s, str_method, &[])?;
 
-      output.push(' ');
-      output.push_str(&hooks.call_method(*s, str_method, &[])?.to_obj().to_str())
+      if index != 0 {
+        output.push(' ');
+      }
+
+      // a user defined str method can return anything
+      if result.is_obj_kind(ObjectKind::String) {
+        output.push_str(&result.to_obj().to_str())
+      } else {
+        output.push_str(&result.to_string())
+      }
     }
 
     let mut stdio = hooks.as_io().stdio();
